@@ -398,16 +398,17 @@ def tables(ctx, obs, rule='TAB'):
                         and isinstance(g.test.ops[0], ast.In) and isinstance(g.test.comparators[0], (ast.List, ast.Tuple)):
                     keys = [e.value for e in g.test.comparators[0].elts if isinstance(e, ast.Constant)]
                 for s in g.body:
-                    if isinstance(s, ast.Assign) and norm(s.targets[0]) == 'method_idx' and isinstance(s.value, ast.Constant):
+                    if keys and isinstance(s, ast.Assign) and isinstance(s.targets[0], ast.Name) and isinstance(s.value, ast.Constant) \
+                            and isinstance(s.value.value, int):
                         for k in keys:
                             m[k] = s.value.value
                 if isinstance(g.test, ast.Compare) and isinstance(g.test.left, ast.Name) and g.test.left.id == 'weighting' \
                         and isinstance(g.test.comparators[0], ast.Constant):
                     for s in g.body:
-                        if isinstance(s, ast.Assign) and norm(s.targets[0]) == 'weight_idx' and isinstance(s.value, ast.Constant):
+                        if isinstance(s, ast.Assign) and isinstance(s.targets[0], ast.Name) and isinstance(s.value, ast.Constant):
                             wm[g.test.comparators[0].value] = s.value.value
                     for s in g.orelse:
-                        if isinstance(s, ast.Assign) and norm(s.targets[0]) == 'weight_idx' and isinstance(s.value, ast.Constant):
+                        if isinstance(s, ast.Assign) and isinstance(s.targets[0], ast.Name) and isinstance(s.value, ast.Constant):
                             wm['<other>'] = s.value.value
         maps[fnq] = m
         wmaps[fnq] = wm
@@ -484,9 +485,33 @@ def wrapper(ctx, obs, rule='FWD'):
             isinstance(n, ast.Call) and _leaf(n.func) == 'get_unique_inverse' for n in ast.walk(e3)), rule, q,
             'n is the number of distinct conditions of the same get_unique_inverse call', f'`{ast.unparse(e3)[:80]}`', '', where(prog, f, c))
         names = [norm(a) for a in args[4:]]
-        obs.check(names == ['method_idx', 'noise', 'prior_lambda', 'prior_weight', 'weight_idx', 'crossval'], rule, q,
-                  'method, noise, priors, weighting and crossval are passed in the compiled signature\'s order', f'{names}', '',
-                  where(prog, f, c))
+        # slots 5-7 are parameters of the wrapper and must be passed by name; 4, 8, 9 are locals checked by provenance below
+        obs.check(names[1:4] == ['noise', 'prior_lambda', 'prior_weight'], rule, q,
+                  'noise and the priors are passed in the compiled signature\'s order', f'{names}', '', where(prog, f, c))
+        mi, wi, cvn = (a.id if isinstance(a, ast.Name) else None for a in (args[4], args[8], args[9]))
+        e4, e8, e9 = (inl.inline(a) for a in (args[4], args[8], args[9]))
+
+        def consts(e):
+            alts = e.args if isinstance(e, ast.Call) and _leaf(e.func) == 'PHI' else [e]
+            return sorted(a.value for a in alts if isinstance(a, ast.Constant))
+        obs.check(consts(e4) == [1, 2, 3, 4], rule, q, 'slot method_idx receives the method index (1..4)',
+                  f'slot 4 receives `{ast.unparse(e4)[:60]}`', '', where(prog, f, c))
+        obs.check(consts(e8) == [0, 1] and consts(e9) == [0, 1] and wi != cvn, rule, q,
+                  'slots weighting and crossval receive the weighting index and the crossval flag (two different 0/1 locals)',
+                  f'slot 8 `{ast.unparse(e8)[:40]}`, slot 9 `{ast.unparse(e9)[:40]}`', '', where(prog, f, c))
+        # which of the two 0/1 locals is the crossval flag: the one assigned next to the fold codes
+        cv_local = None
+        for g in ast.walk(f.node):
+            if isinstance(g, ast.If) and isinstance(g.test, ast.Compare) and isinstance(g.test.left, ast.Name) \
+                    and g.test.left.id == 'cv_descriptor' and isinstance(g.test.ops[0], (ast.Is, ast.IsNot)):
+                for st in g.body:
+                    if isinstance(st, ast.Assign) and isinstance(st.targets[0], ast.Name) and isinstance(st.value, ast.Constant) \
+                            and st.value.value in (0, 1):
+                        cv_local = st.targets[0].id
+        if cv_local is not None:
+            obs.check(cvn == cv_local and wi != cv_local, rule, q, 'the crossval flag is passed in the crossval slot (not in the '
+                      'weighting slot)', f'crossval flag `{cv_local}` is passed as argument {8 if wi == cv_local else "?"}; slot 9 gets `{cvn}`',
+                      '', where(prog, f, c))
         e2 = inl.inline(args[2])
         alts = e2.args if isinstance(e2, ast.Call) and _leaf(e2.func) == 'PHI' else [e2]
         ok = any('return_inverse' in ast.unparse(a) for a in alts)
@@ -494,14 +519,15 @@ def wrapper(ctx, obs, rule='FWD'):
                   '', where(prog, f, c))
     # crossval flag: 1 iff a cv descriptor is in force
     for g in ast.walk(f.node):
-        if isinstance(g, ast.If) and isinstance(g.test, ast.Compare) and norm(g.test).replace(' ', '') == 'cv_descriptorisNone':
-            b = {norm(s.targets[0]): s.value for s in g.body if isinstance(s, ast.Assign)}
-            o = {norm(s.targets[0]): s.value for s in g.orelse if isinstance(s, ast.Assign)}
-            if 'crossval' in b and 'crossval' in o:
-                ok = isinstance(b['crossval'], ast.Constant) and b['crossval'].value == 0 and isinstance(o['crossval'], ast.Constant) \
-                    and o['crossval'].value == 1
-                obs.check(ok, 'FOLD', q, 'crossval is set exactly when a fold descriptor is in force',
-                          f'crossval = {norm(b["crossval"])} without / {norm(o["crossval"])} with a cv descriptor', '', where(prog, f, g))
+        if isinstance(g, ast.If) and isinstance(g.test, ast.Compare) and isinstance(g.test.left, ast.Name) \
+                and g.test.left.id == 'cv_descriptor' and isinstance(g.test.ops[0], ast.Is) and g.orelse:
+            b = {norm(s.targets[0]): s.value for s in g.body if isinstance(s, ast.Assign) and isinstance(s.value, ast.Constant)}
+            o = {norm(s.targets[0]): s.value for s in g.orelse if isinstance(s, ast.Assign) and isinstance(s.value, ast.Constant)}
+            for name in set(b) & set(o):
+                if b[name].value in (0, 1) and o[name].value in (0, 1):
+                    ok = b[name].value == 0 and o[name].value == 1
+                    obs.check(ok, 'FOLD', q, 'crossval is set exactly when a fold descriptor is in force',
+                              f'flag = {b[name].value} without / {o[name].value} with a cv descriptor', '', where(prog, f, g))
     # distance = self_i + self_j - 2 cross (polynomial over row@self, col@self, cross)
     ind = [s for s in ast.walk(f.node) if isinstance(s, ast.Assign) and isinstance(s.targets[0], ast.Tuple)
            and isinstance(s.value, ast.Call) and _leaf(s.value.func) == 'row_col_indicator_rdm']
